@@ -7,7 +7,7 @@ import re
 
 import sympy as sp
 
-from ..core import AnalysisError, call_name, const_value, dotted, unparse, walk_no_nested
+from ..core import named_args, AnalysisError, call_name, const_value, dotted, unparse, walk_no_nested
 from ..report import Ctx
 from ..sym import ToSympy, equal
 from ..pattern import body_is, find, find_expr, has, has_expr
@@ -143,7 +143,7 @@ return __MAX
             ok = ok and equal(r, sp.Symbol('vii') + sp.Symbol('vjj') - 2 * sp.Symbol('vij'))
         except AnalysisError as ex:
             got, ok = f'shape not recognised - {ex}', None
-    ctx.add('C08.R1', 'bioResults._calculate_test', ok, ct, (f'pairwise test = {got}' + ('' if ok else '; expected (b_i - b_j)/sqrt(v_ii + v_jj - 2 v_ij)')) if ok is not None else got, got)
+    ctx.add('C08.R1', 'bioResults._calculate_test', ok, ct, (f'pairwise test = {got}' + ('' if ok else '; expected (b_i - b_j)/sqrt(v_ii + v_jj - 2 v_ij)')) if ok is not None else got, got, positive=ok is False)
     pv = prog.func('results', 'calc_p_value')
     t = pv.positional_params()[0]
     rets = [n for n in walk_no_nested(pv.node) if isinstance(n, (ast.Assign, ast.Return)) and n.value is not None and 'cdf' in unparse(n.value)]
@@ -162,10 +162,29 @@ return __MAX
     ctx.add('C08.R1', 'matrix:varCovar', ok, (cs.file, s.lineno), f'varCovar = {unparse(s.value)}' + ('' if ok else '; expected -pinv(H)'), unparse(s.value))
     s = single('self.data.robust_varCovar')
     ok = unparse(s.value).replace(' ', '').replace('\n', '') in ('self.data.varCovar.dot(self.data.bhhh.dot(self.data.varCovar))', 'self.data.varCovar@self.data.bhhh@self.data.varCovar', 'self.data.varCovar.dot(self.data.bhhh).dot(self.data.varCovar)')
-    ctx.add('C08.R1', 'matrix:robust_varCovar', ok, (cs.file, s.lineno), f'robust_varCovar = {unparse(s.value)}' + ('' if ok else '; expected V.B.V'), unparse(s.value))
+    def chain(e):
+        """the factors of a matrix product written with .dot / @, in order; None when it is something else"""
+        if isinstance(e, ast.BinOp) and isinstance(e.op, ast.MatMult):
+            l_, r_ = chain(e.left), chain(e.right)
+            return None if l_ is None or r_ is None else l_ + r_
+        if isinstance(e, ast.Call) and isinstance(e.func, ast.Attribute) and e.func.attr == 'dot' and len(e.args) == 1 and not e.keywords:
+            l_, r_ = chain(e.func.value), chain(e.args[0])
+            return None if l_ is None or r_ is None else l_ + r_
+        if isinstance(e, ast.Attribute):
+            return [unparse(e)]
+        return None
+
+    fac = chain(s.value)
+    sandwich = ['self.data.varCovar', 'self.data.bhhh', 'self.data.varCovar']
+    other = fac is not None and fac != sandwich and set(fac) <= {'self.data.varCovar', 'self.data.bhhh', 'self.data.H'}
+    ctx.add('C08.R1', 'matrix:robust_varCovar', ok if (ok or other or fac == sandwich) else None, (cs.file, s.lineno), f'robust_varCovar = {unparse(s.value)}' + ('' if ok or fac == sandwich else ('; expected V.B.V' if other else ': not in the expected form (a product of three matrices)')),
+            unparse(s.value), positive=other)
     s = single('self.data.bootstrap_varCovar')
     ok = unparse(s.value).replace(' ', '') == 'np.cov(self.data.bootstrap,rowvar=False)'
-    ctx.add('C08.R1', 'matrix:bootstrap_varCovar', ok, (cs.file, s.lineno), f'bootstrap_varCovar = {unparse(s.value)}' + ('' if ok else '; expected cov(replications, rowvar=False)'), unparse(s.value))
+    v_ = s.value
+    rows_as_vars = isinstance(v_, ast.Call) and dotted(v_.func) in ('np.cov', 'numpy.cov') and v_.args and unparse(v_.args[0]) == 'self.data.bootstrap' and named_args(v_).get('rowvar', 'True') != 'False'
+    ctx.add('C08.R1', 'matrix:bootstrap_varCovar', ok if (ok or rows_as_vars) else None, (cs.file, s.lineno), f'bootstrap_varCovar = {unparse(s.value)}' + ('' if ok else ('; the replications are the rows: expected cov(replications, rowvar=False)' if rows_as_vars else ': not in the expected form')),
+            unparse(s.value), positive=bool(rows_as_vars))
 
     # ---- family blocks
     BLOCK = """
